@@ -17,6 +17,7 @@ import (
 	mty "github.com/33cn/chain33/system/dapp/manage/types"
 	"github.com/33cn/chain33/types"
 	"verif/vnode"
+	"verif/vnode/lidx/vlx"
 	"verif/vnode/treex"
 )
 
@@ -154,6 +155,7 @@ func newEnv(opt Options, mvcc bool) (*Env, error) {
 		}
 		return s
 	}
+	vlx.EnsureAllowed()
 	e.P = vnode.New(vnode.Options{CfgEdit: e.CfgEdit})
 	e.Cfg = e.P.Cfg
 	if m := CfgCheck(e.Cfg, mvcc); m != "" {
@@ -268,6 +270,12 @@ func (e *Env) ManageApply(from int, key, op, value string) *types.Transaction {
 	}
 	tx.Execer = []byte("manage")
 	tx.To = address.ExecAddress("manage")
+	return e.finish(tx, from)
+}
+
+// Vlx builds a signed transaction of the synthetic order-sensitive executor (package vlx).
+func (e *Env) Vlx(from int, tag string) *types.Transaction {
+	tx := &types.Transaction{Execer: []byte(vlx.Name), Payload: []byte(tag), To: vlx.Addr()}
 	return e.finish(tx, from)
 }
 
